@@ -7,7 +7,6 @@ import (
 	"path/filepath"
 	"strings"
 
-	"golang.org/x/net/html"
 	"verif/harness/eng"
 	"verif/harness/ora"
 )
@@ -107,80 +106,19 @@ func buildCross(tier string) []CrossDoc {
 			// blocks: real pages are indented and commented, the generated ones are not
 			switch n % 3 {
 			case 0:
-				if h := crossDecorate(k.d.HTML, "pretty"); h != "" {
+				if h := ora.Decorate(k.d.HTML, "pretty"); h != "" {
 					d := k.d
 					d.HTML, d.Desc = h, "pretty-printed: "+d.Desc
 					out = append(out, d)
 				}
 			case 1:
-				if h := crossDecorate(k.d.HTML, "comments"); h != "" {
+				if h := ora.Decorate(k.d.HTML, "comments"); h != "" {
 					d := k.d
 					d.HTML, d.Desc = h, "with comments: "+d.Desc
 					out = append(out, d)
 				}
 			}
 		}
-	}
-	return out
-}
-
-var crossBlockParents = map[string]bool{"html": true, "head": true, "body": true, "div": true, "ul": true, "ol": true, "table": true, "thead": true, "tbody": true, "tfoot": true, "tr": true,
-	"figure": true, "picture": true, "video": true, "blockquote": true, "section": true, "article": true, "nav": true, "main": true, "dl": true}
-
-// crossDecorate re-renders a document with white space ("pretty") or comments ("comments")
-// between the element children of every container that has no text of its own. Neither changes
-// what a browser shows. Returns "" when the document does not survive a parse/render round trip
-// unchanged (then the decoration could not be told apart from that).
-func crossDecorate(src, how string) string {
-	doc := ora.Parse(src)
-	if doc == nil {
-		return ""
-	}
-	if again := ora.Parse(ora.Render(doc)); again == nil || ora.Render(again) != ora.Render(doc) {
-		return ""
-	}
-	n := 0
-	var rec func(p *html.Node, depth int)
-	rec = func(p *html.Node, depth int) {
-		if p.Type == html.ElementNode && crossBlockParents[p.Data] && !(how == "pretty" && (p.Data == "html" || p.Data == "head")) {
-			onlyElements := p.FirstChild != nil
-			for c := p.FirstChild; c != nil; c = c.NextSibling {
-				if c.Type != html.ElementNode {
-					onlyElements = false
-				}
-			}
-			if onlyElements {
-				var kids []*html.Node
-				for c := p.FirstChild; c != nil; c = c.NextSibling {
-					kids = append(kids, c)
-				}
-				mk := func() *html.Node {
-					n++
-					if how == "comments" {
-						return &html.Node{Type: html.CommentNode, Data: fmt.Sprintf(" note c%dk ", n)}
-					}
-					return &html.Node{Type: html.TextNode, Data: "\n" + strings.Repeat("  ", depth+1)}
-				}
-				for _, k := range kids {
-					p.InsertBefore(mk(), k)
-				}
-				p.AppendChild(mk())
-			}
-		}
-		for c := p.FirstChild; c != nil; c = c.NextSibling {
-			if c.Type == html.ElementNode {
-				rec(c, depth+1)
-			}
-		}
-	}
-	rec(doc, 0)
-	if n == 0 {
-		return ""
-	}
-	out := ora.Render(doc)
-	// the decorated text must parse back to the decorated tree (e.g. no text may be foster-parented)
-	if again := ora.Parse(out); again == nil || ora.Render(again) != out {
-		return ""
 	}
 	return out
 }
